@@ -71,7 +71,7 @@ def run_variant(prop: str, v: Dict[str, Any], repo: str, renamed: bool = False) 
                 res["detail"] = str(ex)
                 return res
         if renamed:
-            from .alpha import alpha_rename, flatten_else, hoist_returns, hoist_tests, reshape_logic
+            from .alpha import alpha_rename, flatten_else, hoist_returns, hoist_tests, reshape_logic, split_conjunctions
 
             for root, _dirs, files in os.walk(os.path.join(scratch, "unified_planning")):
                 if "generated" in root:
@@ -82,7 +82,7 @@ def run_variant(prop: str, v: Dict[str, Any], repo: str, renamed: bool = False) 
                         with open(path) as fh:
                             src = fh.read()
                         new_src, _k = alpha_rename(src)
-                        new_src = hoist_tests(hoist_returns(flatten_else(reshape_logic(new_src))))
+                        new_src = hoist_tests(hoist_returns(flatten_else(reshape_logic(split_conjunctions(new_src)))))
                         with open(path, "w") as fh:
                             fh.write(new_src)
         env = dict(os.environ)
@@ -110,7 +110,7 @@ def run_alpha(prop: str, repo: str) -> Dict[str, Any]:
     """Neutrality: rename the local variables of every function of the package (upsa/alpha.py, a behaviour-preserving
     rewrite) and run the check on the result; the (rule, function) pairs it reports must be those of the unchanged
     tree. A difference means some rule keys on a spelling."""
-    from .alpha import alpha_rename, flatten_else, hoist_returns, hoist_tests, interleave_noops, reshape_logic
+    from .alpha import alpha_rename, flatten_else, hoist_returns, hoist_tests, interleave_noops, reshape_logic, split_conjunctions
 
     res: Dict[str, Any] = {"id": "neutral-alpha-rename", "kind": "neutral", "expect": prop, "status": "?"}
     scratch = tempfile.mkdtemp(prefix=f"upsa_{prop}_alpha_")
@@ -126,7 +126,7 @@ def run_alpha(prop: str, repo: str) -> Dict[str, Any]:
                     with open(path) as fh:
                         src = fh.read()
                     new, k = alpha_rename(src)
-                    new = interleave_noops(hoist_tests(hoist_returns(flatten_else(reshape_logic(new)))))
+                    new = interleave_noops(hoist_tests(hoist_returns(flatten_else(reshape_logic(split_conjunctions(new))))))
                     compile(new, path, "exec")
                     renamed += k
                     with open(path, "w") as fh:
